@@ -138,6 +138,30 @@ def run(tier, seed, rng):
         G = pktcases.Group(table, gid)
         vg = gen.ValGen(rng, table)
         hs = histories(rng, table, vg, 6 if tier == 'quick' else 12)
+        # a repeated field that is EMPTY on the wire (count 0 / when false): several packets parsed from such bytes, one list grown in
+        # place, then a packet built by the constructor -- nobody else may see the new element
+        for c, pc in table.items():
+            seqs = [i for i, fd in enumerate(pc['fields']) if fd['body'][0] == 'seq']
+            if not seqs:
+                continue
+            for _ in range(6):
+                v = vg.try_value(c)
+                empt = [i for i in seqs if v is not None and v[2].get(i) == []]
+                if not empt:
+                    continue
+                i = empt[0]
+                b = pc['fields'][i]['body']
+                x = ('pkt', b[1][1], {}) if b[1][0] == 'refpkt' else (1 if (b[1][0] == 'leaf' and b[1][1][0] == 'int') else (b'q' if b[1][0] == 'leaf' else None))
+                if x is None:
+                    break
+                h = [['new', 'p0', decl.cname(c), pktcases.jvalue(v)], ['reparse', 'p1', 'p0'], ['reparse', 'p2', 'p0'],
+                     ['append', 'p1', [f"f{i}"], pktcases.jvalue(x)], ['pack', 'p2'], ['reparse', 'p3', 'p0'],
+                     ['new', 'p4', decl.cname(c), pktcases.jvalue(('pkt', c, {}))], ['pack', 'p4']]
+                VALUES[id(h[0])] = v
+                VALUES[id(h[3])] = x
+                VALUES[id(h[6])] = ('pkt', c, {})
+                hs.append(h)
+                break
         # two default-constructed packets of every class, then a mutation deep inside the first one
         for c, pc in table.items():
             h = [['new', 'p0', decl.cname(c), pktcases.jvalue(('pkt', c, {}))], ['new', 'p1', decl.cname(c), pktcases.jvalue(('pkt', c, {}))]]
